@@ -725,6 +725,12 @@ func extraCommand(cmd string, args []string) bool {
 	case "rpcstress":
 		runRPCStress(args)
 		return true
+	case "dispatchtable":
+		runDispatchTable(args)
+		return true
+	case "binprobe":
+		runBinProbe(args)
+		return true
 	case "codecstress":
 		runCodecStress(args)
 		return true
